@@ -10,7 +10,15 @@ PID = "C09"; COQ_TARGET = "C09"
 RULE = ("bounded random networks (0-3 reactions) + rule sets chained in dependency order: repeated assignment to species (integer-valued formulas), additive on top of it, "
         "assignment to a parameter that a reaction rate uses, a dt counter rule, an ODE rule with constant rate, an assignment scheduled at a grid time; simulated "
         "deterministically, by SSA, safe SSA, volume SSA, delay SSA, delay + volume SSA (stream replay; grids from 0 and grids offset against the dt clock) and as a lineage single cell; non-trivial = at least two rule kinds present")
-TRUSTED = ["hand models coq/Model/Rules.v, SSA.v tied by stream replay", "deterministic and lineage single-cell modes are decided by the harness oracle only"]
+def translate():
+    import importlib.util, os
+    from harness.common import Broken
+    p = os.path.join(os.path.dirname(os.path.dirname(os.path.dirname(os.path.abspath(__file__)))), "tools", "tr_rules.py")
+    spec = importlib.util.spec_from_file_location("tr_rules", p); m = importlib.util.module_from_spec(spec); spec.loader.exec_module(m)
+    try: return m.run()
+    except m.Refuse as e: raise Broken("tr_rules refused: %s" % e, str(e))
+TRUSTED = ["translator tools/tr_rules.py (engine tools/tr_cython.py): the firing conditions of Rule.execute_rule / execute_volume_rule are regenerated from bioscrape/types.pyx on every run and proved equal to the model's `fires` (Proofs/TieRules.v)",
+           "hand models coq/Model/Rules.v (rule operations), SSA.v tied by stream replay", "deterministic and lineage single-cell modes are decided by the harness oracle only"]
 ASSUMPTIONS = ["generic position: no reaction time coincides with a grid time", "per elapsed step is counted from the second row on (quantifier)"]
 MODES = ["det", "ssa", "ssa_safe", "vssa", "dssa", "dvssa", "lineage"]
 
